@@ -29,6 +29,8 @@ POOL = [
     ['v', 'saw', []], ['v', 'see', ['saw', 'seen']], ['a', 'better', []], ['a', 'good', ['better', 'best']],
     ['n', 'geese', []], ['n', 'axes', []], ['r', 'better', []], ['v', 'found', ['founded']],
     ['v', 'find', ['found']], ['n', 'lives', []], ['n', 'life', ['lives']],
+    # one further form listed by two words of the same part of speech
+    ['n', 'staff', ['staves']], ['n', 'stave', ['staves']], ['v', 'hang', ['hung']], ['v', 'hing', ['hung']],
 ]
 
 
@@ -80,7 +82,7 @@ def c17(tier: str) -> int:
     jd = tlc_judge('Judge_C17', recs, cfg='Judge.cfg', shards=NCPU)
     v.add_judgement('Judge_C17', jd, {x['id']: x for x in recs}, nontrivial=len(cases))
     v.cov['calls'] = sum(len(x.get('calls', [])) for x in recs)
-    v.cov['rule'] = ('random lexicons over a pool of 57 words chosen so that each of the 24 rules fires and '
+    v.cov['rule'] = ('random lexicons over a pool of 61 words chosen so that each of the 24 rules fires and '
                      'collides (ax/axe/axis, wolf/wolve, man/men, lemmas equal to a bare suffix, a/s twins, '
                      'irregular forms shared between words and parts of speech) x queries (every lemma with every '
                      'rule suffix attached, stored forms, bare suffixes, unrelated strings) x pos in '
